@@ -13,6 +13,7 @@ import (
 	"io"
 	"os"
 	"runtime/debug"
+	"sync"
 
 	"github.com/aquilax/hranoprovod-cli/cmd/hranoprovod-cli/v3/internal/balance"
 	"github.com/aquilax/hranoprovod-cli/cmd/hranoprovod-cli/v3/internal/csv"
@@ -165,6 +166,31 @@ type verifFaultJob struct {
 	// reader number NestedAt is read for the first time: two reports alive in one process
 	Nested   *verifFaultJob `json:"nested,omitempty"`
 	NestedAt int            `json:"nested_at,omitempty"`
+	// Parallel: jobs that run side by side in goroutines of this process. Their command lines are
+	// parsed one after the other (the CLI library keeps package-level state); each job then waits
+	// at its first file read until all have arrived, and from there on they run concurrently.
+	Parallel []verifFaultJob `json:"parallel,omitempty"`
+}
+
+// verifGate lines the jobs of a parallel group up at their first file read
+type verifGate struct {
+	cli   sync.Mutex // held while a job is inside the CLI library's parsing
+	mu    sync.Mutex
+	n     int
+	count int
+	all   chan struct{}
+}
+
+func (g *verifGate) arrive(wait bool) {
+	g.mu.Lock()
+	g.count++
+	if g.count == g.n {
+		close(g.all)
+	}
+	g.mu.Unlock()
+	if wait {
+		<-g.all
+	}
 }
 
 type verifReaderState struct {
@@ -185,9 +211,53 @@ type verifFaultRes struct {
 	Writes   int                `json:"writes"`
 	Readers  []verifReaderState `json:"readers,omitempty"`
 	Nested   *verifFaultRes     `json:"nested,omitempty"`
+	Parallel []verifFaultRes    `json:"parallel,omitempty"`
 }
 
 func verifRunFault(j verifFaultJob) (res verifFaultRes) {
+	if len(j.Parallel) > 0 {
+		return verifRunParallel(j.Parallel)
+	}
+	return verifRunFaultGated(j, nil)
+}
+
+// verifRunParallel runs the jobs side by side (see verifFaultJob.Parallel)
+func verifRunParallel(jobs []verifFaultJob) (res verifFaultRes) {
+	realOut, realErr, realErrWriter := os.Stdout, os.Stderr, cli.ErrWriter
+	if null, err := os.OpenFile(os.DevNull, os.O_WRONLY, 0); err == nil {
+		os.Stdout, os.Stderr = null, null
+		defer null.Close()
+	}
+	cli.ErrWriter = io.Discard
+	g := &verifGate{n: len(jobs), all: make(chan struct{})}
+	res.Parallel = make([]verifFaultRes, len(jobs))
+	var wg sync.WaitGroup
+	for i := range jobs {
+		wg.Add(1)
+		go func(i int) {
+			defer wg.Done()
+			res.Parallel[i] = verifRunFaultGated(jobs[i], g)
+		}(i)
+	}
+	wg.Wait()
+	os.Stdout, os.Stderr, cli.ErrWriter = realOut, realErr, realErrWriter
+	return res
+}
+
+func verifRunFaultGated(j verifFaultJob, gate *verifGate) (res verifFaultRes) {
+	inCLI := false
+	if gate != nil {
+		gate.cli.Lock()
+		inCLI = true
+		defer func() {
+			if inCLI {
+				// never reached a file: out of the way of the others
+				inCLI = false
+				gate.cli.Unlock()
+				gate.arrive(false)
+			}
+		}()
+	}
 	sk := &verifSink{limit: j.SinkLimit, kind: j.SinkKind}
 	var frs []*verifReader
 	cu := utils.CmdUtils{
@@ -209,6 +279,15 @@ func verifRunFault(j verifFaultJob) (res verifFaultRes) {
 					fr.before = func() {
 						nr := verifRunFault(*j.Nested)
 						res.Nested = &nr
+					}
+				}
+				if gate != nil {
+					fr.before = func() {
+						if inCLI {
+							inCLI = false
+							gate.cli.Unlock()
+							gate.arrive(true)
+						}
 					}
 				}
 				frs = append(frs, fr)
@@ -253,11 +332,13 @@ func verifRunFault(j verifFaultJob) (res verifFaultRes) {
 		print.NewPrintCommand(cu, print.Print),
 	}
 	realOut, realErr, realErrWriter := os.Stdout, os.Stderr, cli.ErrWriter
-	if null, err := os.OpenFile(os.DevNull, os.O_WRONLY, 0); err == nil {
-		os.Stdout, os.Stderr = null, null
-		defer null.Close()
+	if gate == nil {
+		if null, err := os.OpenFile(os.DevNull, os.O_WRONLY, 0); err == nil {
+			os.Stdout, os.Stderr = null, null
+			defer null.Close()
+		}
+		cli.ErrWriter = io.Discard
 	}
-	cli.ErrWriter = io.Discard
 	var runErr error
 	func() {
 		defer func() {
@@ -271,7 +352,9 @@ func verifRunFault(j verifFaultJob) (res verifFaultRes) {
 		}()
 		runErr = a.Run(append([]string{"hranoprovod-cli"}, j.Args...))
 	}()
-	os.Stdout, os.Stderr, cli.ErrWriter = realOut, realErr, realErrWriter
+	if gate == nil {
+		os.Stdout, os.Stderr, cli.ErrWriter = realOut, realErr, realErrWriter
+	}
 	if runErr != nil {
 		res.Err = runErr.Error()
 		if res.Exit == 0 {
